@@ -270,6 +270,9 @@ class TypedNode(Node):
         if isinstance(child, self._tree.__class__):
             if deep is None:
                 deep = True
+            if deep and child is self._tree:
+                # The copies would become part of the branches that are being copied
+                raise ValueError(f"Cannot deep-copy {child} below itself: {self}")
             # Work on a copy: never modify the child list of the source tree
             topnodes = list(child._root.children)
             # Check the unique constraint for all nodes before adding the first
@@ -295,6 +298,11 @@ class TypedNode(Node):
             if deep and (data_id is not None or node_id is not None):
                 raise ValueError("Cannot set ID for deep copies.")
             source_node = child
+            if deep and (self is source_node or self.is_descendant_of(source_node)):
+                # The copy would become part of the branch that is being copied
+                raise ValueError(
+                    f"Cannot deep-copy {source_node} below itself: {self}"
+                )
             if source_node._tree is self._tree:
                 if source_node._parent is self:
                     raise UniqueConstraintError(
